@@ -74,7 +74,7 @@ def run(pid, tier, seed):
       elif ev["op"] == "merge":
         fr = lambda t: t["bits"] - t["sg"] - t["int"]
         pm = lambda t: bool(t["po2"]) or t["mode"] in (2, 3)
-        ident = {"clause": cl, "merge": ev["kind"], "operand_whose_max_is_a_power_of_two": pm(ev["a"]) or pm(ev["b"]),
+        ident = {"clause": cl, "merge": ev["kind"], "inputs": ev.get("n_inputs", 2), "operand_whose_max_is_a_power_of_two": pm(ev["a"]) or pm(ev["b"]),
                  "integer_widths_differ": ev["a"]["int"] != ev["b"]["int"], "signedness_differs": ev["a"]["sg"] != ev["b"]["sg"]}
       else:
         pm = lambda t: bool(t["po2"]) or t["mode"] in (2, 3)
